@@ -1,6 +1,6 @@
 SPECIFICATION Spec
 CONSTANTS
-  MaxOps = 4
+  MaxOps = 3
 INVARIANT TypeOK
 INVARIANT InvPerClass
 INVARIANT InvExplicitWins
